@@ -122,6 +122,40 @@ func rewrite(path string, src []byte) ([]byte, bool, error) {
 	point := func(op string) ast.Stmt {
 		return &ast.ExprStmt{X: &ast.CallExpr{Fun: &ast.SelectorExpr{X: ast.NewIdent("verifsched"), Sel: ast.NewIdent("Point")}, Args: []ast.Expr{&ast.BasicLit{Kind: token.STRING, Value: strconv.Quote(op)}}}}
 	}
+	// plain receives - the statement `<-ch`, `v := <-ch`, `v = <-ch`, `v, ok := <-ch` outside select headers - become
+	// verifsched.Recv / Recv2: the scheduler then knows that the thread waits and for what (a receive that the
+	// harness cannot see would block the coroutine for real and the whole exploration with it)
+	inSelect := map[ast.Stmt]bool{}
+	ast.Inspect(f, func(n ast.Node) bool {
+		if cc, ok := n.(*ast.CommClause); ok && cc.Comm != nil {
+			inSelect[cc.Comm] = true
+		}
+		return true
+	})
+	recvCall := func(fn string, ch ast.Expr) ast.Expr {
+		return &ast.CallExpr{Fun: &ast.SelectorExpr{X: ast.NewIdent("verifsched"), Sel: ast.NewIdent(fn)}, Args: []ast.Expr{ch}}
+	}
+	ast.Inspect(f, func(n ast.Node) bool {
+		switch st := n.(type) {
+		case *ast.ExprStmt:
+			if u, ok := st.X.(*ast.UnaryExpr); ok && u.Op == token.ARROW && !inSelect[st] {
+				st.X = recvCall("Recv", u.X)
+				instrumented = true
+			}
+		case *ast.AssignStmt:
+			if len(st.Rhs) == 1 && !inSelect[st] {
+				if u, ok := st.Rhs[0].(*ast.UnaryExpr); ok && u.Op == token.ARROW {
+					if len(st.Lhs) == 2 {
+						st.Rhs[0] = recvCall("Recv2", u.X)
+					} else {
+						st.Rhs[0] = recvCall("Recv", u.X)
+					}
+					instrumented = true
+				}
+			}
+		}
+		return true
+	})
 	var fixList func(list []ast.Stmt) []ast.Stmt
 	fixList = func(list []ast.Stmt) []ast.Stmt {
 		var res []ast.Stmt
